@@ -432,3 +432,23 @@ def bool_contexts(root: ast.AST) -> T.Iterator[T.Tuple[ast.AST, ast.AST]]:
                 yield n, e
 
 
+
+
+def name_guard(ctx, fn, call: ast.Call) -> T.Optional[str]:
+    """'git' if the site only runs when self.name == 'git'; 'hg' if only when it is not; else None."""
+    cfg = ctx.cfgs.get(fn.fq)
+    nid = cfg.node_containing(call)
+    if nid is None:
+        return None
+    from .pathcond import PathCond
+    pc = PathCond(cfg)
+    atom = "self.name == 'git'"
+    if atom not in pc.atoms:
+        return None
+    r = pc.reach(nid)
+    from .boolfn import BF
+    if r.implies(BF.var(atom)):
+        return "git"
+    if r.implies(~BF.var(atom)):
+        return "hg"
+    return None
